@@ -9,7 +9,7 @@ RULE = ("patterns BUILT from field lists for 7 types (padded/unpadded numerics, 
         "distinct key = (type, pattern shape, culture, outcome class)")
 ASSUMPTIONS = ["generator rules of DESIGN §3 C07 decide which values a pattern can represent", "culture data as loaded from ICU on this machine"]
 MIN_NT = {"quick": 2000, "thorough": 20000}
-REQUIRED = {"any": ["custom_roundtrips", "standard_patterns", "builtin_roundtrips", "idempotence", "determinism", "reformat_of_parsed_mutants"]}
+REQUIRED = {"any": ["custom_roundtrips", "standard_patterns", "builtin_roundtrips", "idempotence", "determinism", "reformat_of_parsed_mutants", "case_length_patterns"]}
 
 DAY = 86400 * 10**9
 TYPES = ["LocalTime", "LocalDate", "LocalDateTime", "Offset", "Duration", "AnnualDate", "Instant"]
@@ -321,6 +321,33 @@ def run_prefix(ctx, limit):
     ctx.counters["prefix_cultures_found"] += len(hits)
     if limit is not None and len(hits) > limit:
         hits = rng.sample(hits, limit)
+    LD = G.pattern_class("LocalDate")
+    # names whose length changes under case mapping (case-insensitive matching must slice the text by the right length)
+    casehits = []
+    for c in G.cultures(rng, None)[1:]:
+        try:
+            fi = G.fmt_info(c)
+            names = list(fi.long_month_names[1:13]) + list(fi.short_month_names[1:13]) + list(fi.long_month_genitive_names[1:13]) + list(fi.short_month_genitive_names[1:13]) + list(fi.long_day_names[1:8]) + list(fi.short_day_names[1:8])
+            if any(len(x.casefold()) != len(x) or len(x.upper()) != len(x) or len(x.lower()) != len(x) for x in names if x):
+                casehits.append(c)
+        except Exception as e:  # noqa: BLE001
+            ctx.exc(e)
+    ctx.counters["case_length_cultures_found"] += len(casehits)
+    for culture in casehits:
+        fi = G.fmt_info(culture)
+        for pt, kinds in (("d MMMM uuuu", ("MMMM",)), ("MMM d, uuuu", ("MMM",)), ("dddd d MMMM uuuu", ("MMMM", "dddd")), ("ddd d-MM-uuuu", ("ddd",)), ("uuuu MMMM d", ("MMMM",)), ("D", ())):
+            if not all(G.names_ok(fi, k) for k in kinds):
+                continue
+            from pyoda_time.text import InvalidPatternError
+            try:
+                p = LD.create(pt, culture)
+            except InvalidPatternError as e:
+                ctx.exc(e); continue
+            ctx.counters["case_length_patterns"] += 1
+            for m in range(1, 13):
+                for dd in (1, 2, 3, 4, 5, 6, 7) if m == 1 else (rng.randint(1, 28),):
+                    ctx.key(("case-length", culture.name, pt, m))
+                    check_roundtrip(ctx, "LocalDate", p, pt, culture.name, LocalDate(2024, m, dd), pt != "D", "custom_roundtrips")
     LD = G.pattern_class("LocalDate"); AD = G.pattern_class("AnnualDate"); LDT = G.pattern_class("LocalDateTime")
     for culture, kind in hits:
         for pt in (kind, f"{kind} uuuu", f"uuuu {kind}", f"d {kind} uuuu", f"{kind} d", f"uuuu-{kind}-dd", f"'x'{kind}"):
@@ -351,7 +378,7 @@ def run_prefix(ctx, limit):
 
 
 def run(ctx, shard):
-    for k in REQUIRED["any"] + ["generated_pattern_rejected", "create_raised_other", "prefix_cultures_found"]:
+    for k in REQUIRED["any"] + ["generated_pattern_rejected", "create_raised_other", "prefix_cultures_found", "case_length_cultures_found", "case_length_patterns"]:
         ctx.counters.setdefault(k, 0)
     t = shard["type"]
     if t == "prefix": run_prefix(ctx, shard["limit"])
